@@ -148,8 +148,17 @@ def gen_knots(rng, n=None):
 K_SHAPES = ['random', 'rising', 'falling', 'flat_pair', 'bounds', 'sawtooth', 'gentle', 'spiky']
 
 
-def gen_conductivities(rng, n, shape):
-    """Positive conductivities within the PEST bounds 1e-4 .. 1e5 (km/d)."""
+WIDE_BOUNDS = (1e-7, 1e8)
+
+
+def gen_conductivities(rng, n, shape, outside=False):
+    """Positive conductivities within the PEST bounds 1e-4 .. 1e5 (km/d).
+
+    outside=True (off by default; the same random numbers are drawn either way): the logarithms are stretched
+    from [1e-4, 1e5] onto WIDE_BOUNDS, so that a share of the values lies below 1e-4 / above 1e5 - the property
+    quantifies over all positive conductivities, the PEST bounds are only what a calibration explores.
+    Shape 'spiky_low' (not in K_SHAPES, whose order the callers index): 'spiky' with a low first value, i.e. a
+    long quiet segment below the first narrow peak."""
     lo, hi = 1e-4, 1e5
     if shape == 'random':
         k = [loguniform(rng, lo, hi) for _ in range(n)]
@@ -169,12 +178,23 @@ def gen_conductivities(rng, n, shape):
         # factors of 1e4-1e6 between neighbours (with knots a millimetre apart, see gen_case: narrow peaks that an
         # integrator which is not told where the knots are steps over)
         k = [loguniform(rng, 1e-3, 5e-2) if i % 2 else loguniform(rng, 1e2, 2e3) for i in range(n)]
+    elif shape == 'spiky_low':
+        k = [loguniform(rng, 1e-3, 5e-2) if (i % 2 or i == 0) else loguniform(rng, 1e2, 2e3) for i in range(n)]
+        if rng.random() < 0.5:
+            k[0] = k[1]
     elif shape == 'sawtooth':
         k = [loguniform(rng, 1e-3, 1e-1) if i % 2 else loguniform(rng, 1e1, 1e4) for i in range(n)]
     else:  # gentle: factors close to 1 (but not closer than 1.5 %)
         k = [loguniform(rng, 1e-1, 1e1)]
         for _ in range(n - 1):
             k.append(k[-1] * rng.choice([1.02, 0.97, 1.3, 0.8, 1.015]))
+    if outside:
+        wlo, whi = WIDE_BOUNDS
+        f = math.log(whi / wlo) / math.log(hi / lo)
+        k = [wlo * (min(max(x, lo), hi) / lo) ** f for x in k]
+        if shape == 'flat_pair':
+            k[i + 1] = k[i]
+        lo, hi = wlo, whi
     out = []
     for x in k:
         x = round_sig(min(max(x, lo), hi), rng.choice([3, 4, 6]))
@@ -182,6 +202,8 @@ def gen_conductivities(rng, n, shape):
     if shape == 'flat_pair':
         i = next(i for i in range(n - 1) if k[i] == k[i + 1])
         out[i + 1] = out[i]
+    if shape == 'spiky_low' and k[0] == k[1]:
+        out[0] = out[1]
     return out
 
 
@@ -207,6 +229,82 @@ def levels_for(rng, zk, count):
         if x not in out:
             out.append(x)
     return out
+
+
+# ------------------------------------------------------------------ parameters as a YAML parameter file gives them
+
+YAML_STYLES = ('dump', 'repr', 'int', 'dot0', 'pest')
+
+
+def yaml_number_text(x, style):
+    """Text of the number x in a parameter file.  'dump': what yaml.safe_dump writes (1.0e-05); 'repr': Python's
+    repr (1e-05 - which YAML 1.1, hence yaml.safe_load, reads as a STRING: no dot); 'int': no dot when x is a
+    whole number (yaml.safe_load gives a Python int); 'dot0': fixed notation with a dot; 'pest': what PEST writes
+    (1.0000000000000000E-05).  The value meant is float(text) in every style (all styles round-trip)."""
+    import yaml
+    x = float(x)
+    if style == 'int' and x.is_integer() and abs(x) < 1e15:
+        t = '%d' % int(x)
+    elif style == 'repr':
+        t = repr(x)
+    elif style == 'pest':
+        t = '%.16E' % x
+    elif style == 'dot0':
+        t = repr(x) if 'e' not in repr(x) else yaml.safe_dump(x).split('\n')[0]
+    else:
+        t = yaml.safe_dump(x).split('\n')[0]
+    assert float(t) == x, (t, x)
+    return t
+
+
+def yaml_type(text):
+    """Name of the Python type yaml.safe_load gives for this text (int / float / str)."""
+    import yaml
+    return type(yaml.safe_load(text)).__name__
+
+
+# ------------------------------------------------------------------ the caller's array
+
+ARRAY_MODES = ('owned', 'readonly', 'strided', 'reversed')
+
+
+def array_arg(levels, mode):
+    """(array handed to the callable, array that owns the memory).  'owned': a fresh writable contiguous float64
+    array; 'readonly': the same with the write flag cleared; 'strided': every second element of a larger array
+    (sentinels in between); 'reversed': a view with a negative stride."""
+    lv = np.array([float(z) for z in levels], dtype='float64')
+    if mode == 'owned':
+        return lv, lv
+    if mode == 'readonly':
+        lv.setflags(write=False)
+        return lv, lv
+    if mode == 'strided':
+        base = np.full(2 * len(lv) + 1, -12345.678)
+        base[1::2] = lv
+        return base[1::2], base
+    if mode == 'reversed':
+        base = lv[::-1].copy()
+        return base[::-1], base
+    raise ValueError(mode)
+
+
+def call_twice(f, levels, mode='owned', times=2):
+    """Call f with ONE array holding the levels, `times` times in a row, as a caller that keeps its array does.
+    Returns ([('ok', float64 copy of the result) | ('err', kind)] per call, modified) where modified says that the
+    memory of the caller's array differs bit-for-bit from a pristine copy taken before the first call."""
+    import warnings
+    a, base = array_arg(levels, mode)
+    pristine = base.tobytes()
+    results = []
+    for _ in range(times):
+        try:
+            with warnings.catch_warnings():
+                warnings.simplefilter('ignore')
+                r = f(a)
+            results.append(('ok', np.array(r, dtype='float64', copy=True).reshape(-1)))
+        except Exception as e:  # pylint: disable=broad-except
+            results.append(('err', C.err_of(e)))
+    return results, base.tobytes() != pristine
 
 
 # ------------------------------------------------------------------ PEATCLSM: certified tables of the normal cdf
